@@ -221,6 +221,13 @@ def check(args):
     c15.runtime_codes()
     t_setup = time.time() - t0
     report = Report(PROP)
+    for name in core.Z.slow_ops[:6]:
+        # a call on a VALID pool document did not return within 20 s when the pool was warmed up
+        op_kind = name.split(":")[0]
+        if op_kind in ("parse_xml", "parse_json", "dict_decode", "tree_parse", "user_parse"):
+            sig = ("time", "pool:" + name.split(":")[2 if op_kind == "parse_xml" else 1], op_kind, "hang")
+            path = core.write_replay(PROP, f"hang-pool-{core.digest(name)}", {"property": PROP, "op": name, "sig": list(sig), "violation": {"outcome": "hang", "detail": "no result within 20 s for a valid pool document"}})
+            report.add(sig, path, f"{name}: no result within 20 s for a valid pool document")
     agg = {"sigs": Counter()}
     first_by_sig = {}
     suspects = []
